@@ -30,7 +30,7 @@ func init() {
 		Floor:         append([]string{"item.bare", "item.aliased", "lit.str", "lit.null", "nullresult"}, c02Forced...),
 		MinNontrivial: 50,
 		Phases: []fw.Phase{
-			{Name: "proj", N: func(t fw.Tier) int { return pick(t, 4000, 300000) }, Run: c02Proj},
+			{Name: "proj", N: func(t fw.Tier) int { return pick(t, 16000, 500000) }, Run: c02Proj},
 		},
 		Witness: sqlWitness,
 	})
